@@ -237,6 +237,9 @@ VERSION_TERMS = [
     {'k': 'dict', 'kv': [[{'k': 'str', 's': 'a'}, {'k': 'int', 'n': '1'}], [{'k': 'str', 's': 'b'}, {'k': 'int', 'n': '2'}]]},
     {'k': 'dict', 'kv': [[{'k': 'str', 's': 'b'}, {'k': 'int', 'n': '2'}], [{'k': 'str', 's': 'a'}, {'k': 'float', 'n': '1', 'r': '1.0'}]]},
     {'k': 'list', 'xs': [{'k': 'int', 'n': '1'}]}, {'k': 'tuple', 'xs': [{'k': 'float', 'n': '1', 'r': '1.0'}]},
+    # falsy but not None
+    {'k': 'int', 'n': '0'}, {'k': 'float', 'n': '0', 'r': '0.0'}, {'k': 'bool', 'b': False}, {'k': 'str', 's': ''},
+    {'k': 'list', 'xs': []}, {'k': 'dict', 'kv': []}, {'k': 'float', 'n': '0', 'r': '-0.0'},
 ]
 
 
@@ -325,6 +328,10 @@ def make_refuse(seed, profile):
         if st['op'] == 'build':
             builds_seen += 1
             if rnd.random() < 0.7:
+                for _ in range(rnd.choice([0, 0, 1, 2])):
+                    steps.append(rnd.choice([{'op': 'ext', 'do': 'delete', 'p': rnd.choice(DIRS)},
+                                             {'op': 'ext', 'do': 'delete', 'p': rnd.choice(LEAVES)},
+                                             {'op': 'ext', 'do': 'write', 'p': rnd.choice(LEAVES), 'c': 'c8', 'sz': 4}]))
                 kind = rnd.random()
                 call = rnd.choice(['build', 'build', 'clean'])
                 if kind < 0.3:
@@ -452,6 +459,14 @@ def make_threads(seed, profile):
             if dup and i == 1 and branches[0]['s'] == 'sb':
                 f, a = branches[0]['f'], branches[0]['args']
             branches.append({'s': 'sb', 'f': f, 'args': a})
+    combo = False
+    if rnd.random() < 0.3:
+        # canonical race shape: a failing and a succeeding output that share a new (or stale) directory chain
+        combo = True
+        d = rnd.choice([['n'], ['n', 'm'], ['q', 'r']])
+        fa, fb = rnd.choice([('fR', 'fW'), ('fW', 'fR'), ('fR', 'fR'), ('fN2', 'fW')])
+        branches = [{'s': 'bf', 'p': d + ['a1'], 'f': fa, 'args': [0], 'cmp': 'METADATA'},
+                    {'s': 'bf', 'p': (d if rnd.random() < 0.6 else d + ['s']) + ['b1'], 'f': fb, 'args': [1], 'cmp': 'HASH'}]
     par = {'s': 'par', 'branches': branches, 'preempt': []}
     steps = []
     for _ in range(rnd.choice([0, 0, 1, 2])):
@@ -475,7 +490,7 @@ def make_threads(seed, profile):
     if rnd.random() < 0.8:
         steps.append({'op': 'clean', 'name': 'B'})
     return {'id': '%s-%d' % (profile, seed), 'cache': ['k'], 'universe': [], 'threads': True, 'prog': THREAD_PROGS,
-            'steps': steps}
+            'steps': steps, 'combo': combo}
 
 
 def make_straggler(seed, profile):
@@ -505,6 +520,19 @@ def make_straggler(seed, profile):
             ops.append({'s': 'sb', 'f': rnd.choice(['fS', 'fSR']), 'args': [30 + i]})
     root1 = pre + [{'s': 'handoff'}] + post + [end]
     follow = pre + post + [dict(o, catch=True) for o in ops if o['s'] != 'q'] + [{'s': 'return'}]
+    if rnd.random() < 0.5:
+        # the builder of a build_file / subbuild function is handed over instead of the root builder
+        kind = rnd.choice(['bf', 'sb'])
+        body = [{'s': 'q', 'kind': 'exists', 'p': ['zz']}, {'s': 'handoff'}]
+        if kind == 'bf':
+            body.insert(rnd.randrange(3), {'s': 'write', 'c': 'c1', 'sz': 4})
+        body += [{'s': 'q', 'kind': 'is_dir', 'p': ['zz']}] * rnd.randrange(0, 2)
+        body.append({'s': 'raise'} if rnd.random() < 0.25 else {'s': 'return'})
+        progs['fH'] = body
+        call = {'s': kind, 'f': 'fH', 'args': [99], 'catch': True, 'p': ['o', 'h0'], 'cmp': 'HASH'}
+        ops = [o for o in ops if o['s'] == 'q' or rnd.random() < 0.5]
+        root1 = pre + [call] + post + [end]
+        follow = pre + [dict(call)] + post + [dict(o, catch=True) for o in ops if o['s'] != 'q'] + [{'s': 'return'}]
     steps = [{'op': 'build', 'name': 'B', 'vers': {}, 'root': root1, 'straggler': {'ops': ops, 'preempt': []}},
              {'op': 'build', 'name': 'B', 'vers': {}, 'root': follow}]
     if rnd.random() < 0.7:
@@ -545,6 +573,8 @@ def make_swap(seed, profile):
             prog['r' + lay + 'x'] = prog['r' + lay]
             prog['w' + lay + 'x'] = prog['w' + lay]
             r = [st for st in r if st['s'] != 'bf' or st['p'] not in (a, b) or st['f'].endswith('x')]
+        if rnd.random() < 0.4:
+            r.insert(0, {'s': 'probe', 'kinds': ['is_dir', 'exists', 'list_dir', 'is_file', 'walk']})
         r.append({'s': 'raise'} if crash else {'s': 'return'})
         return r
     steps = []
